@@ -20,7 +20,7 @@ import (
 //	_ts     tostream by structural recursion; _pp paths by structural recursion
 const defs = `def _mref(p; f): reduce path(p) as $q ([., []]; . as [$v, $d] | [first($v | getpath($q) | f)] as $r | if ($r | length) == 0 then [$v, $d + [$q]] else [($v | setpath($q; $r[0])), $d] end) | . as [$v, $d] | $v | delpaths($d); ` +
 	`def _aref(p; $x): reduce path(p) as $q (.; setpath($q; $x)); ` +
-	`def _dref(ps): (ps) as $ps | if any($ps[][]?; type == "object" or (type == "number" and . < 0)) then delpaths($ps) else reduce ($ps | unique | reverse[]) as $q (.; delpaths([$q])) end; ` +
+	`def _dref(ps): (ps) as $ps | if any($ps[][]?; type == "object" or (type == "number" and . < 0)) then delpaths($ps) else reduce ($ps | unique | map(select(. as $q | any($ps[]; . as $r | ($r | length) < ($q | length) and $q[:($r | length)] == $r) | not)) | reverse[]) as $q (.; delpaths([$q])) end; ` +
 	`def _ts($p): if (type == "array" or type == "object") and length > 0 then (keys as $ks | ($ks[] as $k | .[$k] | _ts($p + [$k])), [$p + [$ks[-1]]]) else [$p, .] end; ` +
 	`def _pp: if type == "object" or type == "array" then (keys[] as $k | [$k], ([$k] + (.[$k] | _pp))) else empty end; `
 
@@ -290,7 +290,7 @@ func (g *gen) pathExpr(v any, d int) string {
 	case 5:
 		return "(" + sub() + ", " + sub() + ", " + sub() + ")"
 	case 6:
-		return g.pick("..", "recurse", "recurse(.[]?)", "recurse(.a?, .[0]?; . != null)", "(.. | select(" + g.cond() + "))", "recurse(.[]?; " + g.cond() + ")", "..?")
+		return g.pick("..", "recurse", "recurse(.[]?)", "recurse(if type == \"array\" then .[0] elif type == \"object\" then .a else empty end; . != null)", "(.. | select(" + g.cond() + "))", "recurse(.[]?; " + g.cond() + ")", "..?")
 	case 7:
 		return "(" + sub() + " | select(" + g.cond() + "))"
 	case 8:
@@ -420,10 +420,10 @@ func (g *gen) randomCase() *Case {
 		cnd := g.cond()
 		return eqCase("paths", pre, "[paths("+cnd+")]", "[path(.. | select("+cnd+")) | select(length > 0)]", input)
 	case k < 91:
-		return eqCase("to_entries", pre, "to_entries", ". as $v | [_pp | select(length == 1) | {key: .[0], value: ($v | getpath(.))}]", input)
+		return eqCase("to_entries", pre, "to_entries", "keys as $ks | . as $v | [$ks[] | . as $k | {key: $k, value: ($v | getpath([$k]))}]", input)
 	case k < 93:
 		f := g.pick(".", ".value |= [.]", "select(.value != null)", ".key |= \"k\" + (. | tostring)", ".value = 1", "empty", "{key: .key, value: .}")
-		return eqCase("with_entries", pre, "with_entries("+f+")", "[keys[] as $k | {key: $k, value: .[$k]} | "+f+"] | reduce .[] as $e ({}; . + {($e | .key // .Key // .name // .Name | if type == \"string\" then . else tojson end): ($e | if has(\"value\") then .value else .Value end)})", input)
+		return eqCase("with_entries", pre, "with_entries("+f+")", "keys as $ks | . as $v | [$ks[] | . as $k | {key: $k, value: ($v | getpath([$k]))} | "+f+"] | from_entries", input)
 	case k < 96:
 		switch r.Intn(3) {
 		case 0:
